@@ -162,6 +162,9 @@ pub async fn scenario(line: &str) -> String {
     "rawpeer" => rawpeer(&p).await,
     "slowdrip" => slowdrip(&p).await,
     "compat" => compat(&p).await,
+    "hostile" => hostile(&p).await,
+    "reqrace" => reqrace(&p).await,
+    "reprace" => reprace(&p).await,
     "faultlocal" => faultlocal(&p).await,
     _ => "bad-op".to_string(),
   }
@@ -544,4 +547,238 @@ async fn faultlocal(p: &[&str]) -> String {
     None => "healthy=ok".into(),
     Some(f) => format!("ORACLE-FAIL key=failure-not-local:{}:{} {}", transport, fault, f),
   }
+}
+
+/// `hostile <cfg> <bytes> <cuts>`
+/// A raw TCP peer throws `bytes` (in the given write segmentation) at a listening rzmq socket of type PULL;
+/// afterwards a well-behaved PUSH connects to the same listener and its message must arrive: the socket
+/// that owned the hostile connection keeps working (C07). Messages from the hostile peer are ignored.
+async fn hostile(p: &[&str]) -> String {
+  let cfg = parse_kv(p[1]);
+  let data = parse_bytes(p[2]);
+  let cuts = p[3];
+  let ctx = Context::new().expect("ctx");
+  let pull = match make_socket(&ctx, &cfg).await {
+    Ok(s) => s,
+    Err(e) => return format!("setup-error {}", err_class(&e)),
+  };
+  let _ = set_i32(&pull, o::RCVTIMEO, 300).await;
+  if let Err(e) = pull.bind("tcp://127.0.0.1:0").await {
+    return format!("setup-error bind {}", err_class(&e));
+  }
+  let ep = last_endpoint(&pull).await;
+  if let Ok(stream) = TcpStream::connect(ep.trim_start_matches("tcp://")).await {
+    let _ = stream.set_nodelay(true);
+    let (mut rd, mut wr) = stream.into_split();
+    let drain = tokio::spawn(async move {
+      let mut buf = vec![0u8; 65536];
+      while let Ok(n) = rd.read(&mut buf).await {
+        if n == 0 {
+          break;
+        }
+      }
+    });
+    tokio::time::sleep(Duration::from_millis(20)).await;
+    let _ = write_chunks(&mut wr, &data, cuts, Duration::from_millis(5)).await;
+    tokio::time::sleep(Duration::from_millis(100)).await;
+    drop(wr);
+    drain.abort();
+  }
+  // whatever the hostile peer managed to get delivered is drained and ignored
+  let _ = collect_messages(&pull, Duration::from_millis(150), Duration::from_secs(3), false).await;
+  let push = ctx.socket(SocketType::Push).unwrap();
+  let _ = set_i32(&push, o::SNDTIMEO, 3000).await;
+  let mut verdict = "survived=ok".to_string();
+  if let Err(e) = push.connect(&ep).await {
+    verdict = format!("ORACLE-FAIL key=hostile-peer-kills-socket connect {}", err_class(&e));
+  } else if let Err(e) = push.send(Msg::new()).await {
+    // (an empty message: admitted by every MAXMSGSIZE >= 0)
+    verdict = format!("ORACLE-FAIL key=hostile-peer-kills-socket send {}", err_class(&e));
+  } else {
+    let _ = set_i32(&pull, o::RCVTIMEO, 3000).await;
+    match pull.recv().await {
+      Ok(m) if m.size() == 0 => {}
+      Ok(_) => verdict = "ORACLE-FAIL key=hostile-peer-kills-socket wrong-message".into(),
+      Err(e) => verdict = format!("ORACLE-FAIL key=hostile-peer-kills-socket recv {}", err_class(&e)),
+    }
+  }
+  let _ = tokio::time::timeout(Duration::from_secs(5), push.close()).await;
+  let _ = tokio::time::timeout(Duration::from_secs(5), pull.close()).await;
+  let _ = tokio::time::timeout(Duration::from_secs(5), ctx.term()).await;
+  verdict
+}
+
+/// `reqrace <tcp|inproc> <tasks> <millis>`
+/// `tasks` tasks hammer send()/recv() on clones of one REQ socket (multi-thread runtime). The peer is a ROUTER
+/// that answers every request only after a pause; it sees a violation if a second request of the same REQ
+/// arrives while one is unanswered (REQ sent twice in a row). Race-free oracle: observed at the peer.
+async fn reqrace(p: &[&str]) -> String {
+  let transport = p[1];
+  let ntasks: usize = p[2].parse().unwrap();
+  let millis: u64 = p[3].parse().unwrap();
+  let ctx = Context::new().expect("ctx");
+  let router = ctx.socket(SocketType::Router).unwrap();
+  let _ = set_i32(&router, o::RCVTIMEO, 50).await;
+  let ep = if transport == "tcp" { "tcp://127.0.0.1:0".to_string() } else { format!("ipc:///tmp/{}.sock", unique_name("rzmq-verif-reqrace")) };
+  if router.bind(&ep).await.is_err() {
+    return "setup-error bind".into();
+  }
+  let target = if transport == "tcp" { last_endpoint(&router).await } else { ep };
+  let req = ctx.socket(SocketType::Req).unwrap();
+  // no RCVTIMEO: a recv() that times out abandons the exchange by design and a new send is then allowed
+  let _ = set_i32(&req, o::SNDTIMEO, 20).await;
+  if req.connect(&target).await.is_err() {
+    return "setup-error connect".into();
+  }
+  tokio::time::sleep(Duration::from_millis(150)).await;
+  let stop = std::sync::Arc::new(std::sync::atomic::AtomicBool::new(false));
+  let mut handles = Vec::new();
+  for t in 0..ntasks {
+    let r = req.clone();
+    let st = stop.clone();
+    handles.push(tokio::spawn(async move {
+      let mut n: u32 = 0;
+      while !st.load(std::sync::atomic::Ordering::Relaxed) {
+        n = n.wrapping_add(1);
+        if (n.wrapping_mul(2654435761).wrapping_add(t as u32)) % 3 != 0 {
+          let _ = r.send(Msg::from_vec(vec![t as u8])).await;
+        } else {
+          let _ = r.recv().await;
+        }
+        tokio::task::yield_now().await;
+      }
+    }));
+  }
+  // the peer: at most one unanswered request may exist at any time
+  let t0 = Instant::now();
+  let mut violation: Option<String> = None;
+  let mut served = 0usize;
+  while t0.elapsed() < Duration::from_millis(millis) {
+    match router.recv_multipart().await {
+      Ok(frames) if !frames.is_empty() => {
+        let id = frames[0].clone();
+        // pause, then look whether the SAME requester has already sent another request
+        tokio::time::sleep(Duration::from_millis(3)).await;
+        match tokio::time::timeout(Duration::from_millis(15), router.recv_multipart()).await {
+          Ok(Ok(_second)) => {
+            violation = Some(format!("two requests in a row without a reply in between (after {} exchanges)", served));
+            break;
+          }
+          _ => {}
+        }
+        let _ = router.send_multipart(vec![id, Msg::from_static(b"reply")]).await;
+        served += 1;
+      }
+      _ => {}
+    }
+  }
+  stop.store(true, std::sync::atomic::Ordering::Relaxed);
+  for h in handles {
+    h.abort();
+  }
+  let _ = tokio::time::timeout(Duration::from_secs(5), req.close()).await;
+  let _ = tokio::time::timeout(Duration::from_secs(5), router.close()).await;
+  let _ = tokio::time::timeout(Duration::from_secs(5), ctx.term()).await;
+  match violation {
+    Some(v) => format!("ORACLE-FAIL key=req-alternation {}", v),
+    None if served == 0 => "ORACLE-FAIL key=req-alternation-vacuous no exchange completed".into(),
+    None => "alternation=ok".into(),
+  }
+}
+
+/// `reprace <tcp|inproc> <tasks> <millis>`
+/// `tasks` tasks hammer recv()+send(echo) on clones of one REP socket while two DEALER peers each keep one
+/// request outstanding (ids "A<n>" / "B<n>"). Every reply a peer receives must echo ITS OWN latest request:
+/// a reply routed to the wrong peer, or two replies for one request, is a violation.
+async fn reprace(p: &[&str]) -> String {
+  let transport = p[1];
+  let ntasks: usize = p[2].parse().unwrap();
+  let millis: u64 = p[3].parse().unwrap();
+  let ctx = Context::new().expect("ctx");
+  let rep = ctx.socket(SocketType::Rep).unwrap();
+  let _ = set_i32(&rep, o::RCVTIMEO, 20).await;
+  let _ = set_i32(&rep, o::SNDTIMEO, 50).await;
+  let ep = if transport == "tcp" { "tcp://127.0.0.1:0".to_string() } else { format!("ipc:///tmp/{}.sock", unique_name("rzmq-verif-reprace")) };
+  if rep.bind(&ep).await.is_err() {
+    return "setup-error bind".into();
+  }
+  let target = if transport == "tcp" { last_endpoint(&rep).await } else { ep };
+  let stop = std::sync::Arc::new(std::sync::atomic::AtomicBool::new(false));
+  let mut handles = Vec::new();
+  for _ in 0..ntasks {
+    let r = rep.clone();
+    let st = stop.clone();
+    handles.push(tokio::spawn(async move {
+      while !st.load(std::sync::atomic::Ordering::Relaxed) {
+        if let Ok(m) = r.recv().await {
+          // simulate work between recv and send so that other tasks get to run
+          tokio::task::yield_now().await;
+          let _ = r.send(Msg::from_vec(m.data().unwrap_or(&[]).to_vec())).await;
+        }
+        tokio::task::yield_now().await;
+      }
+    }));
+  }
+  let mut clients = Vec::new();
+  for name in [b'A', b'B'] {
+    let target = target.clone();
+    let ctx2 = ctx.clone();
+    let st = stop.clone();
+    clients.push(tokio::spawn(async move {
+      let d = ctx2.socket(SocketType::Dealer).unwrap();
+      let _ = set_i32(&d, o::RCVTIMEO, 300).await;
+      let _ = set_i32(&d, o::SNDTIMEO, 300).await;
+      if d.connect(&target).await.is_err() {
+        return Err("connect".to_string());
+      }
+      tokio::time::sleep(Duration::from_millis(100)).await;
+      let mut n = 0u32;
+      let mut ok = 0usize;
+      while !st.load(std::sync::atomic::Ordering::Relaxed) {
+        n += 1;
+        let body = format!("{}{}", name as char, n).into_bytes();
+        if d.send_multipart(vec![Msg::from_vec(body.clone())]).await.is_err() {
+          continue;
+        }
+        match d.recv_multipart().await {
+          Ok(frames) => {
+            let got = frames.last().map(|m| m.data().unwrap_or(&[]).to_vec()).unwrap_or_default();
+            if got != body {
+              let _ = d.close().await;
+              return Err(format!(
+                "peer {} expected echo {:?} got {:?}",
+                name as char,
+                String::from_utf8_lossy(&body),
+                String::from_utf8_lossy(&got)
+              ));
+            }
+            ok += 1;
+          }
+          Err(_) => {} // timeout: the request may have been dropped by a detached state; try the next
+        }
+      }
+      let _ = d.close().await;
+      Ok(ok)
+    }));
+  }
+  tokio::time::sleep(Duration::from_millis(millis)).await;
+  stop.store(true, std::sync::atomic::Ordering::Relaxed);
+  let mut verdict = "routing=ok".to_string();
+  let mut total = 0usize;
+  for c in clients {
+    match tokio::time::timeout(Duration::from_secs(3), c).await {
+      Ok(Ok(Ok(n))) => total += n,
+      Ok(Ok(Err(e))) => verdict = format!("ORACLE-FAIL key=rep-reply-routing {}", e),
+      _ => {}
+    }
+  }
+  for h in handles {
+    h.abort();
+  }
+  if verdict == "routing=ok" && total == 0 {
+    verdict = "ORACLE-FAIL key=rep-reply-routing-vacuous no exchange completed".into();
+  }
+  let _ = tokio::time::timeout(Duration::from_secs(5), rep.close()).await;
+  let _ = tokio::time::timeout(Duration::from_secs(5), ctx.term()).await;
+  verdict
 }
